@@ -356,3 +356,49 @@ func H13c() {
 	hWF(msS)
 	check(hDumpTrees(msS) == hDumpTrees(msF), "an included submodule contributes its data nodes, typedefs, groupings and identities exactly as if they were written in the module (seen from the module and from an importer)")
 }
+
+// H13inc: two revisions of a submodule and a module whose include names none, the older or the
+// newer one, in every load order: the include denotes the latest revision, or exactly the named
+// one, and the module's tree holds that revision's nodes.
+func H13inc() {
+	s19 := `submodule s { belongs-to m { prefix m; } revision 2019-01-01; leaf old { type string; } leaf both { type int8; } }`
+	s20 := `submodule s { belongs-to m { prefix m; } revision 2020-06-15; leaf new { type string; } leaf both { type int16; } }`
+	pin := symChoice(3)
+	inc := `include s;`
+	switch pin {
+	case 1:
+		inc = `include s { revision-date 2019-01-01; }`
+	case 2:
+		inc = `include s { revision-date 2020-06-15; }`
+	}
+	m := `module m { namespace "urn:m"; prefix m; ` + inc + ` leaf own { type string; } }`
+	texts := []string{s19, s20, m}
+	orders := [][]int{{0, 1, 2}, {1, 0, 2}, {2, 0, 1}, {2, 1, 0}, {0, 2, 1}, {1, 2, 0}}
+	o := orders[symChoice(len(orders))]
+	hNoFiles()
+	ms := NewModules()
+	for _, k := range o {
+		check(ms.Parse(texts[k], "f"+string([]byte{'0' + byte(k)})+".yang") == nil, "the texts load")
+	}
+	errs := ms.Process()
+	check(len(errs) == 0, "the set processes")
+	if len(errs) > 0 {
+		return
+	}
+	reach("loaded")
+	want := ms.SubModules["s@2020-06-15"]
+	if pin == 1 {
+		want = ms.SubModules["s@2019-01-01"]
+	}
+	check(want != nil && ms.SubModules["s"] == ms.SubModules["s@2020-06-15"], "the bare submodule name denotes the latest revision")
+	mod := ms.Modules["m"]
+	check(len(mod.Include) == 1 && mod.Include[0].Module == want, "an include denotes the latest revision, or exactly the revision its revision-date names")
+	em := ToEntry(mod)
+	hWF(ms)
+	if pin == 1 {
+		check(em.Dir["old"] != nil && em.Dir["new"] == nil && em.Dir["both"] != nil && em.Dir["both"].Type.Kind == Yint8, "the module holds the nodes of the included revision")
+	} else {
+		check(em.Dir["new"] != nil && em.Dir["old"] == nil && em.Dir["both"] != nil && em.Dir["both"].Type.Kind == Yint16, "the module holds the nodes of the included revision")
+	}
+	check(em.Dir["own"] != nil && len(em.Dir) == 3, "nothing else")
+}
